@@ -1366,6 +1366,12 @@ func (g *pfGen) httpCase() *pfHTTPCase {
 				if g.chance(30) {
 					c.abortAt = len(c.body) - 1
 				}
+				if (c.sizeClass == "size-default" || c.sizeClass == "size-unlimited") && g.chance(40) {
+					// the upload breaks off inside trailing white space: what did arrive is a complete JSON text
+					n := len(c.body)
+					c.body = append(c.body, []byte(strings.Repeat(" ", 1+g.rng.Intn(4))+"\n")...)
+					c.abortAt = n + g.rng.Intn(len(c.body)-n)
+				}
 				c.abortDecl = g.chance(50)
 			}
 		}
